@@ -202,6 +202,15 @@ class SimSocket:
         return self._addr or ('0.0.0.0', 0)
 
     def getpeername(self):
+        if self._state == 'closed':
+            raise OSError(9, 'Bad file descriptor')
+        if self._state != 'connected':
+            raise OSError(107, 'Transport endpoint is not connected')
+        nw = network()
+        if nw is not None and nw.cfg.rst and (self._rx.reset or self._tx.discards > 0):
+            # the peer's RST (it closed with unread data, or it had closed and we wrote to it)
+            # has torn the connection down: there is no peer any more
+            raise OSError(107, 'Transport endpoint is not connected')
         return ('sim', 0)
 
     def __enter__(self):
